@@ -261,6 +261,13 @@ func (ex *Exec) evalIdent(name string, env *Env) TV {
 			return tv
 		}
 	}
+	// A contract that names something the function does not have (a renamed
+	// local or parameter) is stale: the function is undecided in this run, its
+	// obligations raise no alarm (check.go).
+	if ex.staleIdents == nil {
+		ex.staleIdents = map[string]bool{}
+	}
+	ex.staleIdents[name] = true
 	return ex.evalErr("unknown identifier %s", name)
 }
 
